@@ -78,7 +78,7 @@ def load(file: Union[TextIO, Iterator[str]], strict: bool = True) -> Simfile:
     the file is treated as an SSC simfile; otherwise, it's treated as
     an SM simfile.
     """
-    file, is_ssc = _detect_ssc(file)
+    file, is_ssc = _detect_ssc(file, strict)
     if is_ssc:
         return SSCSimfile(file=file, strict=strict)
     else:
